@@ -30,17 +30,23 @@ T0 = 1000
 
 
 def kill_all():
-  """kill every greenlet spawned during the previous path and drain the loop"""
-  live = [g for g in GREENLETS if not g.dead]
-  del GREENLETS[:]
-  for g in live:
-    try: g.kill(block=False)
-    except BaseException: pass
-  if live:
-    LOOP._timers = []
-    for _ in range(3):
+  """kill every greenlet spawned during the previous path and drain the loop; anything those
+  greenlets still execute while dying is outside every path (engine cleanup mode)"""
+  E = _eng.ENG
+  if E is not None: E.cleanup = True
+  try:
+    for _ in range(12):
+      live = [g for g in GREENLETS if not g.dead]
+      if not live and not LOOP._callbacks: break
+      del GREENLETS[:]
+      for g in live:
+        try: g.kill(block=False)
+        except BaseException: pass
+      LOOP._timers = []
       gevent.sleep(0)
-  del GREENLETS[:]
+    del GREENLETS[:]
+  finally:
+    if E is not None: E.cleanup = False
 
 
 def setup(resolution=0.01):
